@@ -21,7 +21,15 @@ CTORS = ["origin_to", "tv_origin_to", "isometry_to", "timelike_to", "spacelike_t
 
 # finding reported to the coordinator and not yet listed in known_findings.json: the family
 # is kept out of the search (counted under `excluded`) until it is repaired or listed as open
-PENDING_FINDINGS = {"C02-subspace-reflection-through-origin"}
+PENDING_FINDINGS = set()
+
+
+def pending(fid):
+    """True while `fid` is a reported-but-unlisted finding; VERIF_PENDING=0 switches the
+    exclusion off (to replay the saved case of the finding and see it fail)"""
+    import os
+    return fid in PENDING_FINDINGS and os.environ.get("VERIF_PENDING", "1") != "0"
+
 
 RULE = ("cases are constructor-tagged JSON specs: Point.origin_to (projective representatives "
         "with factors in +-[0.2,5], force_oriented T/F/default, n 1..5, composite shapes), "
@@ -33,10 +41,12 @@ RULE = ("cases are constructor-tagged JSON specs: Point.origin_to (projective re
         "(products of unipotents, diagonals, rotations, reflections; det +-1; list or ndarray; "
         "composite), Hyperplane(normal).reflection_across and Subspace(ideal basis)."
         "reflection_across (n 2..5, composite), CoxeterGroup/TriangleGroup.hyperbolic_rep "
-        "(triangle triples with 1/p+1/q+1/r<1 incl. infinity, all rank-4 matrices over "
-        "{2,3,4,5,6,inf} and sampled rank-5 matrices whose cosine form the harness finds of "
-        "signature (d,1) with |eigenvalue| >= 0.005; generators, a word of length <= 8, and the "
-        "composite rep.isometries(words)); programs = histories of <= 8 steps (acc@X, X@acc, "
+        "(triangle triples with 1/p+1/q+1/r<1 incl. infinity, rank-4 matrices sampled from all "
+        "46347 over {2,3,4,5,6,inf} and rank-5 matrices from a fixed sample whose cosine form "
+        "the harness finds of signature (d,1) with |eigenvalue| >= 0.005; generators, a word of "
+        "length <= 8, and the composite rep.isometries(words); exhaustive: all ordered "
+        "hyperbolic triangle triples over {2..8,inf} and, thorough, one representative per "
+        "generator permutation class of the rank-4 matrices over {2,3,4,5,inf}); programs = histories of <= 8 steps (acc@X, X@acc, "
         "acc.inv(), acc@X.inv(), X.inv()@acc) over a pool of 2-3 built isometries.  Every built "
         "isometry is applied to 3 interior, 2 ideal, 2 exterior test points.  non-trivial = "
         "non-identity isometry in dimension >= 2, or a program with >= 2 steps; distinct = "
@@ -52,9 +62,6 @@ ASSUMPTIONS = [
     "spacelike normals satisfy <v,v> >= 0.05 |v|^2 (hyperplane within 1.8 of the origin)",
     "hyperplanes / reflections in dimension >= 2 only (a 'hyperplane' of H^1 is a point; "
     "Hyperplane(normal) in H^1 builds a non-orthogonal ideal basis - reported, not asserted)",
-    "Subspace(ideal basis).reflection_across() of a hyperplane passing within 1e-15 of the "
-    "origin (numerically through it) is excluded while the reported finding "
-    "C02-subspace-reflection-through-origin is pending",
     "composite timelike_to/spacelike_to/Hyperplane inputs use the (...,1,n+1) layout the "
     "library's own callers use",
     "float64 only",
@@ -68,8 +75,8 @@ CLAIM = dict(
           "random point pairs and the causal character (and Minkowski square) of interior / "
           "ideal / exterior test vectors must be unchanged, force_oriented must give det > 0, "
           "and each program is replayed on a numpy model step by step. Refutes, never proves."),
-    note=("Subspace.reflection_across of a subspace centred exactly at the origin (NaN / "
-          "LinAlgError) is excluded as a reported finding."),
+    note=("Subspace.reflection_across of a hyperplane through the origin (NaN / LinAlgError "
+          "before fdde039) is part of the search and pinned as a regression."),
     technique="property-based testing (Hypothesis): algebraic invariant (form), closed-form "
               "metric oracle, model-based replay of composition histories, exhaustive small "
               "Coxeter domains",
@@ -207,7 +214,7 @@ def _normals(draw, n, cnt, amax):
             ok = [t for t in range(-3, 4) if (m - t * t) >= lim * (m + t * t) and m > t * t]
             out.append({"v": [draw(st.sampled_from(ok))] + vs})
         else:
-            a = draw(st.one_of(st.just(0.0), fl(-amax, amax)))
+            a = draw(fl(-amax, amax)) if draw(st.integers(0, 6)) else 0.0
             out.append({"a": a, "d": draw(sdir(n)), "s": draw(gen.scalars_pm(0.2, 5.0))})
     return out
 
@@ -335,6 +342,24 @@ def rank4_table():
     mats = np.array([_sym_from_labels(4, c) for c in combos])
     mask = _lorentzian_mask(mats)
     return [combos[i] for i in np.nonzero(mask)[0]]
+
+
+@functools.lru_cache(maxsize=None)
+def rank4_classes():
+    """one representative per generator-permutation class of the rank-4 Coxeter matrices
+    over {2,3,4,5,inf} with Lorentzian cosine form"""
+    pairs = list(itertools.combinations(range(4), 2))
+    index = {p: i for i, p in enumerate(pairs)}
+    perms = list(itertools.permutations(range(4)))
+    out = []
+    for lab in rank4_table():
+        if 6 in lab:
+            continue
+        best = min(tuple(lab[index[tuple(sorted((pm[i], pm[j])))]] for (i, j) in pairs)
+                   for pm in perms)
+        if best == tuple(lab):
+            out.append(lab)
+    return out
 
 
 RANK5_FIXED = [(5, 2, 2, 2, 3, 2, 2, 3, 2, 3), (5, 2, 2, 2, 3, 2, 2, 3, 2, 4),
@@ -715,7 +740,7 @@ def body_ctor(case, ctx):
     if b.n >= 2:
         ctx.label("n>=2")
     if b.excluded is not None:
-        if b.excluded in PENDING_FINDINGS or ctx.known(b.excluded):
+        if pending(b.excluded) or ctx.known(b.excluded):
             ctx.exclude(b.excluded)
             return
         T = Subspace(b.payload.copy()).reflection_across()
@@ -771,9 +796,11 @@ def body_program(case, ctx):
     for spec in case["pool"]:
         b = build(spec)
         if b.excluded is not None:
-            ctx.label("excluded-pool-element")
-            ctx.exclude(b.excluded)
-            return
+            if pending(b.excluded) or ctx.known(b.excluded):
+                ctx.label("excluded-pool-element")
+                ctx.exclude(b.excluded)
+                return
+            b.T = Subspace(b.payload.copy()).reflection_across()
         pool.append(b)
         ctx.label("pool:" + spec["ctor"])
     cond = max(b.cond for b in pool)
@@ -861,8 +888,10 @@ def body_causal(case, ctx):
     if b.n >= 2:
         ctx.label("n>=2")
     if b.excluded is not None:
-        ctx.exclude(b.excluded)
-        return
+        if pending(b.excluded) or ctx.known(b.excluded):
+            ctx.exclude(b.excluded)
+            return
+        b.T = Subspace(b.payload.copy()).reflection_across()
     n, shape = b.n, b.shape
     M = np.asarray(b.T.matrix).astype(float)
     nrm = np.maximum(I.opnorm(M), 1.0)
@@ -924,9 +953,10 @@ def coxeter_exhaustive(tier):
                              cox=_sym_from_labels(4, lab).tolist(), via="matrix",
                              style="alpha", word=[0, 1, 2, 3, 0, 2, 1, 3],
                              extra_words=[[0, 1], [3, 2]]), pts=pts3)
-              for lab in rank4_table()]
-        out.append(("all rank-4 Coxeter matrices over {2,3,4,5,6,inf} with cosine form of "
-                    "signature (3,1), |eigenvalue| >= 0.005", c4))
+              for lab in rank4_classes()]
+        out.append(("all rank-4 Coxeter matrices over {2,3,4,5,inf} up to permutation of the "
+                    "generators with cosine form of signature (3,1), |eigenvalue| >= 0.005",
+                    c4))
     return out
 
 
@@ -936,19 +966,19 @@ def _ctor_law(ctor, quick, thorough, shards=(1, 4), exhaustive=None):
 
 
 LAWS = [
-    _ctor_law("origin_to", 150, 1500),
-    _ctor_law("tv_origin_to", 120, 1200),
-    _ctor_law("isometry_to", 120, 1200),
-    _ctor_law("timelike_to", 100, 1000),
-    _ctor_law("spacelike_to", 120, 1200),
-    _ctor_law("elliptic", 100, 1000, shards=(1, 2)),
-    _ctor_law("standard_rotation", 80, 800, shards=(1, 2)),
-    _ctor_law("standard_loxodromic", 80, 800, shards=(1, 2)),
-    _ctor_law("sl2_iso", 120, 1200),
-    _ctor_law("reflection_across", 150, 1500),
-    _ctor_law("coxeter_hyperbolic_rep", 80, 800, exhaustive=coxeter_exhaustive),
+    _ctor_law("origin_to", 150, 700),
+    _ctor_law("tv_origin_to", 120, 600),
+    _ctor_law("isometry_to", 120, 600),
+    _ctor_law("timelike_to", 100, 500),
+    _ctor_law("spacelike_to", 120, 600),
+    _ctor_law("elliptic", 100, 600, shards=(1, 2)),
+    _ctor_law("standard_rotation", 80, 500, shards=(1, 2)),
+    _ctor_law("standard_loxodromic", 80, 500, shards=(1, 2)),
+    _ctor_law("sl2_iso", 120, 600),
+    _ctor_law("reflection_across", 150, 800),
+    _ctor_law("coxeter_hyperbolic_rep", 80, 400, exhaustive=coxeter_exhaustive),
     Law("program_preserves_form_and_distance", program_case(), body_program, nt_program,
-        quick=200, thorough=2000, shards=(2, 8)),
+        quick=200, thorough=1000, shards=(2, 8)),
     Law("causal_character_preserved", causal_case(), body_causal, nt_ctor, quick=150,
-        thorough=1500, shards=(1, 4)),
+        thorough=700, shards=(1, 4)),
 ]
